@@ -134,8 +134,16 @@ class VC:
     def feasible(self, extra=None):
         s = z3.Solver()
         s.set('timeout', 400)
+        hq = self.__dict__.setdefault('_hq_cache', {})     # per path: pc element (kept alive by self.pc) -> has a quantifier
+        if hq.get('path') != self.path_id:
+            hq.clear()
+            hq['path'] = self.path_id
         for p in self.pc:
-            if not _has_quantifier(p):
+            k = id(p)
+            q = hq.get(k)
+            if q is None:
+                q = hq[k] = (p, _has_quantifier(p))
+            if not q[1]:
                 s.add(p)
         if extra is not None:
             s.add(extra)
